@@ -299,6 +299,9 @@ fn check_vec<T: PartialEq + std::fmt::Debug + Clone>(name: &str, rate: f64, sols
 /// The mutation rate is state (`MutationRate<T>`), adaptable after initialisation: with the state set to 0
 /// nothing may change whatever rate the component was constructed with. Returns the changed solutions.
 fn run_adapted_rate(which: u8, cfg_rate: f64, reinit: bool) -> Result<Vec<String>, String> {
+    if cfg_rate == -2.0 {
+        return run_inner_scope_instance(which);
+    }
     if cfg_rate < 0.0 {
         return run_two_identifiers(which);
     }
@@ -374,12 +377,51 @@ fn run_two_identifiers(which: u8) -> Result<Vec<String>, String> {
         _ => go!(TspP, tsp(4), mu::ScrambleMutation::<A>::new_with_id::<TspP>(0.0), mu::ScrambleMutation::<B>::new_with_id::<TspP>(1.0), perms),
     }
 }
+/// An instance with rate 1 inside an inner scope (initialised and executed there, as `Scope` does), then an instance of the
+/// same operator with rate 0 in the outer scope: the outer one changes nothing of what the inner one left behind.
+fn run_inner_scope_instance(which: u8) -> Result<Vec<String>, String> {
+    macro_rules! go {
+        ($P:ty, $problem:expr, $mk:expr, $sols:expr) => {{
+            let problem = $problem;
+            let sols = $sols;
+            let mk = $mk;
+            let pop: Vec<Individual<$P>> = sols.iter().map(|s| Individual::new(s.clone(), crate::subject::problems::so(1.0))).collect();
+            let mut st = state_with::<$P>(vec![pop]);
+            let snap: std::sync::Arc<std::sync::Mutex<Vec<String>>> = Default::default();
+            let snap2 = snap.clone();
+            let config = mahf::Configuration::<$P>::builder()
+                .scope_(|b| b.do_(mk(1.0)))
+                .debug(move |_p, st| {
+                    *snap2.lock().unwrap() = st.populations().current().iter().map(|i| format!("{:?}", i.solution())).collect();
+                })
+                .do_(mk(0.0))
+                .build();
+            config.run(&problem, &mut st).map_err(|e| format!("run: {:#}", e))?;
+            let after: Vec<String> = st.populations().current().iter().map(|i| format!("{:?}", i.solution())).collect();
+            let before = snap.lock().unwrap().clone();
+            Ok(before.iter().zip(&after).filter(|(a, b)| a != b).map(|(a, b)| format!("{} -> {}", a, b)).collect())
+        }};
+    }
+    let reals = vec![vec![0.25, -0.5, 1.5], vec![1.0, 0.0, -1.0]];
+    let bits = vec![vec![true, false, true, true], vec![false, false, true, false]];
+    let perms = vec![vec![2usize, 0, 3, 1], vec![0, 1, 2, 3]];
+    match which {
+        0 => go!(RealP, realp(3), |r| mu::NormalMutation::new::<RealP>(0.5, r), reals),
+        1 => go!(RealP, realp(3), |r| mu::UniformMutation::new::<RealP>(0.5, r), reals),
+        2 => go!(RealP, realp(3), |r| mu::PartialRandomSpread::new::<RealP>(r), reals),
+        3 => go!(BinP, BinP { dim: 4, instr: Instr::new() }, |r| mu::BitFlipMutation::new::<BinP>(r), bits),
+        4 => go!(BinP, BinP { dim: 4, instr: Instr::new() }, |r| mu::PartialRandomBitstring::new::<BinP>(0.5, r), bits),
+        _ => go!(TspP, tsp(4), |r| mu::ScrambleMutation::new::<TspP>(r), perms),
+    }
+}
 const ADAPTED: [&str; 6] = ["NormalMutation", "UniformMutation", "PartialRandomSpread", "BitFlipMutation", "PartialRandomBitstring", "ScrambleMutation"];
 
 fn check_adapted_rate(which: u8, cfg_rate: f64, reinit: bool, out: &Outcome<Result<Vec<String>, String>>) -> Option<(String, String)> {
-    let head = format!("C13 op={} {}", ADAPTED[which as usize], if cfg_rate < 0.0 { "rate-zero-next-to-another-identifier" } else if reinit { "rate-zero-after-earlier-initialisation" } else { "adapted-rate" });
+    let head = format!("C13 op={} {}", ADAPTED[which as usize], if cfg_rate == -2.0 { "rate-zero-after-an-inner-scope-instance" } else if cfg_rate < 0.0 { "rate-zero-next-to-another-identifier" } else if reinit { "rate-zero-after-earlier-initialisation" } else { "adapted-rate" });
     let ctx = |w: String| {
-        if cfg_rate < 0.0 {
+        if cfg_rate == -2.0 {
+            format!("scope {{ {}(rate 1) }} followed by {}(rate 0) in the outer scope, run as one configuration: {}", ADAPTED[which as usize], ADAPTED[which as usize], w)
+        } else if cfg_rate < 0.0 {
             format!("{} under identifier A with rate 0, next to an instance under identifier B with rate 1 that was initialised later: {}", ADAPTED[which as usize], w)
         } else if reinit {
             format!("{} constructed with rate 0 and initialised on a state on which an instance with rate 1 had been initialised before: {}", ADAPTED[which as usize], w)
@@ -749,6 +791,44 @@ fn describe(c: &Case) -> Value {
     json!({"case": format!("{:?}", c)})
 }
 
+/// The operator components on long solutions (beyond any buffer an implementation may size statically: 2^12, 2^16).
+fn long_cases(thorough: bool) -> Vec<(String, Case)> {
+    let mut v = vec![];
+    let dims: Vec<usize> = if thorough { vec![130, 5000, 70_000] } else { vec![130, 5000] };
+    for &d in &dims {
+        let a: Vec<f64> = (0..d).map(|i| (i % 17) as f64 * 0.1 - 0.8).collect();
+        let b: Vec<f64> = (0..d).map(|i| 1.5 - (i % 13) as f64 * 0.2).collect();
+        let c: Vec<f64> = (0..d).map(|i| 0.01 * (i % 29) as f64).collect();
+        for (nm, op) in [("NormalMutation(rate 1)", RealOp::Normal(1.0)), ("NormalMutation(rate 0.5)", RealOp::Normal(0.5)), ("UniformMutation(rate 0.5)", RealOp::Uniform(0.5)), ("PartialRandomSpread(rate 0.5)", RealOp::PartialRandomSpread(0.5)), ("UniformMutation(rate 0)", RealOp::Uniform(0.0))] {
+            v.push((format!("{} dim={}", nm, d), Case::Real(op, vec![a.clone(), b.clone()])));
+        }
+        for (nm, x) in [("UniformCrossover", XOp::Uniform), ("ArithmeticCrossover", XOp::Arithmetic), ("NPointCrossover(1)", XOp::NPoint(1)), ("NPointCrossover(3)", XOp::NPoint(3))] {
+            for both in [false, true] {
+                v.push((format!("{} pc=1 insert_both={} dim={}", nm, both, d), Case::CrossReal(x.clone(), 1.0, both, vec![a.clone(), b.clone(), c.clone()])));
+            }
+        }
+        let x: Vec<bool> = (0..d).map(|i| i % 3 == 0).collect();
+        let y: Vec<bool> = (0..d).map(|i| (i / 7) % 2 == 0).collect();
+        for (nm, op) in [("BitFlipMutation(rate 0.5)", BinOp::BitFlip(0.5)), ("BitFlipMutation(rate 1)", BinOp::BitFlip(1.0)), ("PartialRandomBitstring(rate 0.5)", BinOp::PartialRandomBitstring(0.5)), ("BitFlipMutation(rate 0)", BinOp::BitFlip(0.0))] {
+            v.push((format!("{} dim={}", nm, d), Case::Bin(op, vec![x.clone(), y.clone()])));
+        }
+    }
+    let ns: Vec<usize> = if thorough { vec![130, 1100, 5000] } else { vec![130, 1100] };
+    for &n in &ns {
+        let id: Vec<usize> = (0..n).collect();
+        let rev: Vec<usize> = (0..n).rev().collect();
+        let mix: Vec<usize> = (0..n).map(|i| (i * 7 + 3) % n).collect();
+        let mix = if n % 7 == 0 { rev.clone() } else { mix };
+        for (nm, op) in [("SwapMutation(2)", PermOp::Swap(2)), ("SwapMutation(n/2)", PermOp::Swap((n / 2) as u32)), ("ScrambleMutation(rate 0.5)", PermOp::Scramble(0.5)), ("InversionMutation", PermOp::Inversion), ("InsertionMutation", PermOp::Insertion), ("TranslocationMutation", PermOp::Translocation)] {
+            v.push((format!("{} n={}", nm, n), Case::Perm(op, n, vec![mix.clone(), id.clone()])));
+        }
+        for both in [false, true] {
+            v.push((format!("CycleCrossover pc=1 insert_both={} n={}", both, n), Case::CrossPerm(1.0, both, n, vec![mix.clone(), id.clone(), rev.clone()])));
+        }
+    }
+    v
+}
+
 fn component_cases(thorough: bool) -> Vec<Case> {
     let mut cases = vec![];
     let ns: Vec<usize> = if thorough { vec![2, 3, 4, 5] } else { vec![3, 4] };
@@ -878,6 +958,7 @@ fn check_ax(n: usize, alphas: &[f64], wide: bool) -> Vec<(String, String)> {
 
 pub fn run(rep: &mut Report) {
     let thorough = rep.tier == Tier::Thorough;
+    rep.alpha("every mutation / recombination component on solutions of 130 and 5000 (thorough 70000) reals / bits and permutations of 130 and 1100 (thorough 5000) positions; an instance with rate 1 run inside an inner scope before the outer instance with rate 0");
     rep.alpha("mutation rate adapted through the MutationRate state after initialisation (6 operators x constructed rates {1, 1/2, 0}, state set to 0; constructed with rate 0 and initialised after an instance with rate 1 was initialised on the same state): nothing changes");
     rep.alpha("helpers: circular_swap/circular_swap2 on all permutations of length <= N with all tuples of >= 2 distinct indices; translocate_slice/translocate_slice2 on all non-empty ranges and all insertion indices; multi_point_crossover with all non-empty cut sets of size < n; uniform_crossover with all masks; arithmetic_crossover with alphas in {0,1/4,1/2,1}^n; cycle_crossover on all pairs of permutations");
     rep.alpha("components on populations of 1..3 solutions: SwapMutation(2<=k<=n), ScrambleMutation, InversionMutation, InsertionMutation, TranslocationMutation, Normal/Uniform/BitFlip/PartialRandomSpread/PartialRandomBitstring with rate in {0,1/2,1}, NPoint/Uniform/Arithmetic/Cycle crossover with pc in {0,1/2,1} x insert one/both x even/odd populations, DEMutation on well-formed populations, DE selection -> mutation -> binomial/exponential crossover pipelines");
@@ -1053,8 +1134,16 @@ pub fn run(rep: &mut Report) {
     let mut x = 0x1234_5678_9abc_def0u64 ^ seed;
     for n in [15usize, 16, 17, 18, 31, 32, 33, 64, 65, 100, 257] {
         let reps = if thorough { 40 } else { 8 };
-        for _ in 0..reps {
-            let (a, b) = (rand_perm(n, &mut x), rand_perm(n, &mut x));
+        for rep_i in 0..reps + 4 {
+            // besides pseudo-random parents: sorted, reversed, rotated ones (value patterns, not only sizes)
+            let ident: Vec<usize> = (0..n).collect();
+            let (a, b) = match rep_i {
+                i if i == reps => (ident.clone(), rand_perm(n, &mut x)),
+                i if i == reps + 1 => (rand_perm(n, &mut x), ident.iter().rev().cloned().collect()),
+                i if i == reps + 2 => (ident.clone(), ident.iter().map(|v| (v + 1) % n).collect()),
+                i if i == reps + 3 => (ident.iter().rev().cloned().collect(), ident.clone()),
+                _ => (rand_perm(n, &mut x), rand_perm(n, &mut x)),
+            };
             p.transitions += 1;
             p.traces += 1;
             p.states += 1;
@@ -1119,10 +1208,40 @@ pub fn run(rep: &mut Report) {
     part.require_outcomes(10);
     rep.push(part);
 
+    // ---- the components on long solutions ----
+    let mut part = Part::new("components.long-solutions");
+    part.caps_hit.push("long solutions are covered on a deterministic family of instances and default generator streams of 2 seeds, not exhaustively".to_string());
+    let lc = long_cases(thorough);
+    part.bound("cases", lc.len() as u64);
+    let res: Vec<Vec<(String, String, Value)>> = lc
+        .par_iter()
+        .map(|(name, c)| {
+            let mut out = vec![];
+            for sd in 0..2u64 {
+                let cfg = Cfg::prefix(&MENU4, 0, seed ^ crate::engine::util::fnv(name) ^ sd);
+                let (o, _) = tape::run_once(&cfg, &[], || run_case(c));
+                if let Some((sg, d)) = check_case(c, &o) {
+                    out.push((format!("{} long-solution", sg), format!("{}: {}", name, d.chars().take(500).collect::<String>()), json!({"long_case": name, "seed": seed ^ crate::engine::util::fnv(name) ^ sd})));
+                }
+            }
+            out
+        })
+        .collect();
+    for (i, r) in res.into_iter().enumerate() {
+        part.states += 1;
+        part.traces += 2;
+        part.transitions += 2;
+        part.outcome(lc[i].0.split(' ').next().unwrap_or("").to_string());
+        for (sg, d, v) in r {
+            part.violate(sg, d, v);
+        }
+    }
+    rep.push(part);
+
     // ---- rate adapted through the state after initialisation ----
     let mut part = Part::new("components.adapted-rate");
     for which in 0..ADAPTED.len() as u8 {
-        for (cfg_rate, reinit) in [(1.0, false), (0.5, false), (0.0, false), (0.0, true), (-1.0, false)] {
+        for (cfg_rate, reinit) in [(1.0, false), (0.5, false), (0.0, false), (0.0, true), (-1.0, false), (-2.0, false)] {
             let cfg = Cfg::prefix(&MENU4, 3, seed ^ (which as u64 * 31));
             let body = || run_adapted_rate(which, cfg_rate, reinit);
             tape::explore(&cfg, &body, &mut |prefix, out, _| {
@@ -1195,6 +1314,16 @@ pub fn replay(case: &Value) -> Result<Vec<(String, String)>, String> {
             }
             other => return Err(format!("unknown helper {}", other)),
         });
+    }
+    if let Some(name) = case["long_case"].as_str() {
+        for thorough in [false, true] {
+            if let Some((_, c)) = long_cases(thorough).into_iter().find(|(n, _)| n == name) {
+                let cfg = Cfg::prefix(&MENU4, 0, case["seed"].as_u64().unwrap_or(0));
+                let (o, _) = tape::run_once(&cfg, &[], || run_case(&c));
+                return Ok(check_case(&c, &o).into_iter().map(|(s, d)| (format!("{} long-solution", s), d.chars().take(500).collect::<String>())).collect());
+            }
+        }
+        return Err("long case not found".into());
     }
     // component case: find it again by its description
     let want = case["case"].as_str().ok_or("no case")?;
